@@ -129,6 +129,36 @@ var Decoders = []Decoder{
 			}
 		}
 	}},
+	// A caller that skips a bad record: ReadFace is called again after it has
+	// returned an error (a fault inside the vertex block or a face line).  The
+	// calls after a fault may fail or succeed; they must not panic or spin.
+	{"OFFReader.ReadFace.retry", []string{"off"}, func(r io.Reader, n int) (int, error) {
+		or, err := fileformats.NewOFFReader(r)
+		if err != nil {
+			return 0, err
+		}
+		rows, faults := 0, 0
+		var first error
+		for {
+			_, err := or.ReadFace()
+			if err == io.EOF {
+				return rows, first
+			}
+			if err != nil {
+				if first == nil {
+					first = err
+				}
+				if faults++; faults > 8 {
+					return rows, first
+				}
+				continue
+			}
+			rows++
+			if rows > rowCap(n) {
+				panic(NoProgress{rows})
+			}
+		}
+	}},
 }
 
 func DecoderByName(name string) *Decoder {
